@@ -22,7 +22,7 @@ import (
 // configuring the SP key (field, TLS field, setter, both, after restart).
 // Fit is thin: what decides is enumeration of the grid against byte equality.
 
-var c11KeyStyles = []world.KeyStyle{world.KeyField, world.KeyTLS, world.KeySetter, world.KeyBoth}
+var c11KeyStyles = []world.KeyStyle{world.KeyField, world.KeyTLS, world.KeySetter, world.KeyBoth, world.KeyBothDiffer, world.KeyBothDifferTLS}
 
 func init() {
 	register(&Prop{
@@ -32,7 +32,7 @@ func init() {
 			"per cell: DecryptBytes over plaintext lengths 0..33 (all residues mod 16, zero-byte tails) must return the exact bytes, Decrypt must unmarshal, and the encrypted Response must behave as its plaintext twin (outcome, data, flags); distinct = shape hash (cell, length mode, placement, outcome)",
 		Directed:   c11Directed,
 		Run:        c11Run,
-		MustHit:    []string{"key=field", "key=tls", "key=setter", "key=both", "sp_restart", "detached", "inline", "pkcs1v15", "oaep_sha512", "cbc", "gcm", "zero_tail", "len_mod16=0", "twin", "key_rotation", "advertised_method_exercised", "envelopes_differ_within_response"},
+		MustHit:    []string{"key=field", "key=tls", "key=setter", "key=both", "key=both-differ", "key=both-differ-tls", "sp_restart", "detached", "inline", "pkcs1v15", "oaep_sha512", "cbc", "gcm", "zero_tail", "len_mod16=0", "twin", "key_rotation", "advertised_method_exercised", "envelopes_differ_within_response"},
 		RandomRuns: map[string]int{"quick": 1200, "thorough": 8000},
 		Assumptions: []string{"encrypted layouts are exercised with signature checking on (with SkipSignatureValidation the library never decrypts; outside this property's quantifier)",
 			"OAEP / PKCS#1 v1.5 ciphertext bytes are not replayable in Go (hidden randomness) and are excluded from run digests"},
@@ -50,7 +50,7 @@ func c11Directed(tier string) [][]uint64 {
 				}
 				for det := uint64(0); det < 2; det++ {
 					for emb := uint64(0); emb < 2; emb++ {
-						for ks := uint64(0); ks < 4; ks++ {
+						for ks := uint64(0); ks < 6; ks++ {
 							for rs := uint64(0); rs < 2; rs++ {
 								if tier == "quick" && (da+ka*2+dg+det+emb+ks*3+rs)%7 != 0 {
 									continue
@@ -77,7 +77,7 @@ func c11Run(r *core.Run) {
 	}
 	o.Detached = t.Bool("c11.detached")
 	embed := t.Bool("c11.embed")
-	ksi := t.Int(4, "c11.keystyle")
+	ksi := t.Int(len(c11KeyStyles), "c11.keystyle")
 	restart := t.Bool("c11.restart")
 	lenMode := t.Int(40, "c11.lenmode") // 0 = sweep 0..33, else that length-1 (+ large)
 	rotate := t.Int(5, "c11.rotate")    // 0 none; key rotation on the live SP: 1 setter->setter 2 field->field 3 field->setter 4 setter->field-cleared
